@@ -66,6 +66,7 @@ Definition check_advances (D : Z) (d : direction) (origin : V.loc) (global : lis
   let ds := advance_deltas d gs in
   list_eqb Z.eqb (map (default_advance d origin) gs) font_defaults
   && (has_map || is_single_model d global gs)
+  && (negb (D =? 16384) || check_font d origin gs font_defaults font_rows)
   && (forallb2 (row_matches_q D) ds font_rows
       || (negb (D =? 16384) && glyphs_have_tie d gs)).
 
